@@ -17,7 +17,7 @@ SPEC = {
         ("non-emitting search continues only entries due in this round", 'ne_inner', r'^ne-inner:only-live'),
         ("the link from a non-emitting level to the next observation expands only entries due in this round (a postponed candidate is not expanded)", 'ne_end', r'^ne-end:only-live'),
         ("match(with a width the new column is re-pruned at the end of every step)", 'match', r'^loop:(new-column|no-pruning)'),
-        ("increase_max_lattice_width(the new width is stored before the matching continues; exactly one call of match on the stored trace as an expansion round; unique/tqdm handed on; result = result of match; nothing but the width is written)", 'widen', r'^widen:'),
+        ("increase_max_lattice_width(the new width is stored before the matching continues; exactly one call of match on the stored trace as an expansion round; result = result of match; nothing but the width is written)", 'widen', r'^widen:(?!unique|tqdm)'),
         ("_match_non_emitting_states(level loop: first level = live entries due in this round; the WHOLE level - postponed entries included - is continued at the next depth; the search stops only at an empty level or the depth bound; pruning of the layer and of the next column in every level)", 'ne_levels', r'(^levels:|^select:|::inv-(init|preserved)::)')],
     'bounded': [
         ('pruned-vs-unpruned-and-widening', suites.case_C07, 1500, 200000, RULE + '; ' + 'non-trivial = at least one candidate was postponed', '')],
